@@ -147,7 +147,7 @@ func lexCase(src string) string {
 		if i > 0 {
 			sb.WriteByte(';')
 		}
-		fmt.Fprintf(&sb, "%s:%s:%d:%d:%d:%d:%d:%d", string(t.Type), hx(t.Literal), t.LineNumber, t.EndLineNumber, t.StartCharIndex, t.EndCharIndex, t.StartUtf8CharIndex, t.EndUtf8CharIndex)
+		fmt.Fprintf(&sb, "%s/%s/%d/%d/%d/%d/%d/%d", string(t.Type), hx(t.Literal), t.LineNumber, t.EndLineNumber, t.StartCharIndex, t.EndCharIndex, t.StartUtf8CharIndex, t.EndUtf8CharIndex)
 	}
 	return sb.String()
 }
